@@ -22,7 +22,7 @@ variable {m : Migration} {db db' : DB}
 
 /-- the index / key statements: the named table's columns do not change on either side -/
 theorem step_addIndex (h : Rel m db) (t : String) (ht : t ≠ "") (idx : Index) {tb tb' : TableSpec}
-    (hf : db.find t = some tb) (hn : tb'.name = tb.name) (hc : tb'.colNames = tb.colNames) :
+    (hf : db.find t = some tb) (hn : tb'.name = tb.name) (hc : tb'.cols = tb.cols) :
     ∃ m1, m.addIndex t idx = .ok m1 ∧ Rel (m1.using_ t) (db.replace tb') := by
   unfold Migration.addIndex
   rw [Rel.resolve_ne m ht]
@@ -33,7 +33,7 @@ theorem step_addIndex (h : Rel m db) (t : String) (ht : t ≠ "") (idx : Index) 
   exact ⟨m1, h1, hr.using_ t⟩
 
 theorem step_removeIndex (h : Rel m db) (t : String) (ht : t ≠ "") (name : String) {tb tb' : TableSpec}
-    (hf : db.find t = some tb) (hn : tb'.name = tb.name) (hc : tb'.colNames = tb.colNames) :
+    (hf : db.find t = some tb) (hn : tb'.name = tb.name) (hc : tb'.cols = tb.cols) :
     ∃ m1, m.removeIndex t name = .ok m1 ∧ Rel (m1.using_ t) (db.replace tb') := by
   unfold Migration.removeIndex
   rw [Rel.resolve_ne m ht]
@@ -44,7 +44,7 @@ theorem step_removeIndex (h : Rel m db) (t : String) (ht : t ≠ "") (name : Str
   exact ⟨m1, h1, hr.using_ t⟩
 
 theorem step_addForeignKey (h : Rel m db) (t : String) (ht : t ≠ "") (fk : ForeignKey) {tb tb' : TableSpec}
-    (hf : db.find t = some tb) (hn : tb'.name = tb.name) (hc : tb'.colNames = tb.colNames) :
+    (hf : db.find t = some tb) (hn : tb'.name = tb.name) (hc : tb'.cols = tb.cols) :
     ∃ m1, m.addForeignKey t fk = .ok m1 ∧ Rel m1 (db.replace tb') := by
   unfold Migration.addForeignKey
   simp only
@@ -55,7 +55,7 @@ theorem step_addForeignKey (h : Rel m db) (t : String) (ht : t ≠ "") (fk : For
       Table.addForeignKey_frame tm tm' _ hs⟩)
 
 theorem step_removeForeignKey (h : Rel m db) (t : String) (ht : t ≠ "") (name : String) {tb tb' : TableSpec}
-    (hf : db.find t = some tb) (hn : tb'.name = tb.name) (hc : tb'.colNames = tb.colNames) :
+    (hf : db.find t = some tb) (hn : tb'.name = tb.name) (hc : tb'.cols = tb.cols) :
     ∃ m1, m.removeForeignKey t name = .ok m1 ∧ Rel (m1.using_ t) (db.replace tb') := by
   unfold Migration.removeForeignKey
   rw [Rel.resolve_ne m ht]
@@ -79,57 +79,126 @@ theorem hasCol_iff (tb : TableSpec) (c : String) : tb.hasCol c = true ↔ c ∈ 
 
 /-- DROP COLUMN -/
 theorem step_dropColumn (h : Rel m db) (t c : String) (ht : t ≠ "") {tb tb' : TableSpec} (hf : db.find t = some tb)
-    (hc : tb.hasCol c = true) (hn : tb'.name = tb.name) (hcols : tb'.colNames = tb.colNames.filter (· != c)) :
+    (hc : tb.hasCol c = true) (hn : tb'.name = tb.name) (hcolsF : tb'.cols = tb.cols.filter (fun x => x.name != c)) :
     ∃ m1, m.removeColumn t c = .ok m1 ∧ Rel (m1.using_ t) (db.replace tb') := by
+  have hcols : tb'.colNames = tb.colNames.filter (· != c) := by
+    show tb'.cols.map (·.name) = (tb.cols.map (·.name)).filter (· != c)
+    rw [hcolsF, List.filter_map]; rfl
   unfold Migration.removeColumn
   rw [Rel.resolve_ne m ht]
   obtain ⟨m1, h1, hr, _⟩ := h.edited hf hn "Migration.RemoveColumn" (·.removeColumn c) (by
-    intro tm hi ha hp hnames
+    intro tm hi ha hp hnames hty
     have hmem : c ∈ tm.colNames := by rw [hnames]; exact (hasCol_iff tb c).mp hc
     obtain ⟨id, hid⟩ := List.mem_iff_getElem?.mp hmem
     have hg := (hi.cols.get c id).mpr hid
-    obtain ⟨tm', hs, hnm, ha'⟩ := Table.removeColumn_names tm c hi ha id hg
+    obtain ⟨tm', hs, hnm, ha', hmem'⟩ := Table.removeColumn_names tm c hi ha id hg
+    have hnames' : tm'.colNames = tb'.colNames := by
+      rw [hnm, hcols, ← hnames]
+      exact eraseIdx_eq_filter tm.colNames hi.cols.nodup id c hid
     refine ⟨tm', hs, (Table.removeColumn_inv tm tm' c hi hs).1, (Table.removeColumn_inv tm tm' c hi hs).2, ha',
-      Table.removeColumn_action tm tm' c hs, ?_, ?_⟩
+      Table.removeColumn_action tm tm' c hs, ?_, hnames', ?_⟩
     · rw [Table.removeColumn_pending tm tm' c hs]; exact hp
-    · rw [hnm, hcols, ← hnames]
-      exact eraseIdx_eq_filter tm.colNames hi.cols.nodup id c hid)
+    · intro x hx
+      obtain ⟨x0, hx0, hxn, hxt⟩ := hmem' x hx
+      obtain ⟨cs, hcs, hcsn, hcst⟩ := hty x0 hx0
+      have hxin : x.name ∈ tb'.colNames := by rw [← hnames']; exact List.mem_map_of_mem hx
+      have hne : x.name ≠ c := by
+        rw [hcols] at hxin
+        have := (List.mem_filter.mp hxin).2
+        simpa using this
+      refine ⟨cs, ?_, hcsn.trans hxn, by rw [← hxt]; exact hcst⟩
+      rw [hcolsF]
+      exact List.mem_filter.mpr ⟨hcs, by rw [hcsn, hxn]; simpa using hne⟩)
   exact ⟨m1, h1, hr.using_ t⟩
 
-
-/-- `AddColumn` of a column the table already holds (the two calls of MODIFY COLUMN): names and order stay -/
-theorem addColumn_existing (h : Rel m db) (arg t : String) (hres : m.resolve arg = t) (col : Column) {tb : TableSpec}
-    (hf : db.find t = some tb) (hc : col.name ∈ tb.colNames) :
-    ∃ m1, m.addColumn arg col = .ok m1 ∧ Rel m1 db := by
-  unfold Migration.addColumn
-  rw [hres]
-  obtain ⟨id, tm0, _, _, hd, _, _, _⟩ := h.lookup hf
-  obtain ⟨m1, h1, hr, _⟩ := h.edited hf (tb' := tb) rfl "Migration.AddColumn" (·.addColumn col true) (by
-    intro tm hi ha hp hnames
-    have hmem : col.name ∈ tm.colNames := by rw [hnames]; exact hc
-    obtain ⟨id, hid⟩ := List.mem_iff_getElem?.mp hmem
-    have hg := (hi.cols.get col.name id).mpr hid
-    obtain ⟨tm', hs, hnm, ha', hp'⟩ := Table.addColumn_merge tm col true hi ha id hg
-    exact ⟨tm', hs, (Table.addColumn_inv tm tm' col true hi hs).1, (Table.addColumn_inv tm tm' col true hi hs).2, ha',
-      Table.addColumn_action tm tm' col true hs, by rw [hp']; exact hp, by rw [hnm, hnames]⟩)
-  rw [replace_self db h.nodup id tb hd] at hr
-  exact ⟨m1, h1, hr⟩
-
-/-- MODIFY COLUMN -/
-theorem step_modifyColumn (h : Rel m db) (t : String) (ht : t ≠ "") (c : ColDef) {tb : TableSpec}
-    (hf : db.find t = some tb) (hc : tb.hasCol c.name = true) :
-    ∃ m', step m (.modifyColumn t c) = .ok m' ∧ Rel m' db := by
-  have hmem := (hasCol_iff tb c.name).mp hc
-  obtain ⟨m1, h1, hr1⟩ := addColumn_existing h t t (Rel.resolve_ne m ht)
-    { name := c.name, action := .modify, cur := { typ := some c.typ } } hf hmem
-  have hr1u := hr1.using_ t
+/-- MODIFY COLUMN: two merging `AddColumn` calls on the named table (the second through the cursor); the column keeps its
+    place and takes the new type -/
+theorem step_modifyColumn (h : Rel m db) (t : String) (ht : t ≠ "") (c : ColDef) {tb tb' : TableSpec}
+    (hf : db.find t = some tb) (hc : tb.hasCol c.name = true) (hn : tb'.name = tb.name)
+    (hcolsM : tb'.cols = tb.cols.map (fun x => if x.name == c.name then (colOf c).1 else x)) :
+    ∃ m', step m (.modifyColumn t c) = .ok m' ∧ Rel m' (db.replace tb') := by
+  obtain ⟨id, tm, hg, hm, hd, hnm, hcols, htn, hty⟩ := h.lookup hf
+  have hmemT := List.mem_of_getElem? hm
+  have hi := h.inv.each tm hmemT
+  have ha := (h.fresh tm hmemT).1
+  have hp := h.np tm hmemT
+  have hcm : c.name ∈ tm.colNames := by rw [hcols]; exact (hasCol_iff tb c.name).mp hc
+  obtain ⟨ci, hci⟩ := List.mem_iff_getElem?.mp hcm
+  have hgc := (hi.cols.get c.name ci).mpr hci
+  -- first call: the `modify` marker
+  let col1 : Column := { name := c.name, action := .modify, cur := { typ := some c.typ } }
+  obtain ⟨tm1, hs1, hn1, ha1, hp1, hmem1⟩ := Table.addColumn_merge tm col1 true hi ha ci hgc
+  have hi1 := Table.addColumn_inv tm tm1 col1 true hi hs1
+  -- second call: the column definition
+  have hgc1 : tm1.colIdx.get? c.toColumn.name = some ci := by
+    apply (hi1.1.cols.get _ ci).mpr
+    rw [hn1]; exact hci
+  obtain ⟨tm2, hs2, hn2, ha2, hp2, hmem2⟩ := Table.addColumn_merge tm1 c.toColumn true hi1.1 ha1 ci hgc1
+  have hi2 := Table.addColumn_inv tm1 tm2 c.toColumn true hi1.1 hs2
+  -- the two edits on the migration
+  let m1 : Migration := { m with tables := m.tables.set id tm1 }
+  have e1 : m.addColumn t col1 = .ok m1 := by
+    unfold Migration.addColumn
+    rw [Rel.resolve_ne m ht]
+    exact Migration.edit_known m t _ _ id tm tm1 hg hm hs1
+  have hlt : id < m.tables.length := (List.getElem?_eq_some_iff.mp hm).1
   have hres : (m1.using_ t).resolve "" = t := by rw [resolve_using]; exact Rel.resolve_ne m1 ht
-  obtain ⟨m2, h2, hr2⟩ := addColumn_existing hr1u "" t hres c.toColumn hf (by simpa [ColDef.toColumn] using hmem)
-  refine ⟨m2, ?_, hr2⟩
-  unfold step
-  simp only [h1, bind, Except.bind]
-  exact h2
-
+  have hm1 : (m1.using_ t).tables[id]? = some tm1 := by
+    rw [using_tables]
+    show (m.tables.set id tm1)[id]? = _
+    simp [hlt]
+  have hg1 : (m1.using_ t).tblIdx.get? t = some id := by
+    have : (m1.using_ t).tblIdx = m.tblIdx := by unfold Migration.using_; split <;> rfl
+    rw [this]; exact hg
+  have e2 := Migration.edit_known (m1.using_ t) t "Migration.AddColumn" (·.addColumn c.toColumn true) id tm1 tm2 hg1 hm1 hs2
+  refine ⟨{ (m1.using_ t) with tables := (m1.using_ t).tables.set id tm2 }, ?_, ?_⟩
+  · have e1' : m.addColumn t { name := c.name, action := .modify, cur := { typ := some c.typ } } = .ok m1 := e1
+    unfold step
+    simp only [e1', bind, Except.bind]
+    unfold Migration.addColumn
+    rw [hres]
+    exact e2
+  · have hcolsame : tb'.colNames = tb.colNames := by
+      show tb'.cols.map (·.name) = tb.cols.map (·.name)
+      rw [hcolsM, List.map_map]
+      apply List.map_congr_left
+      intro x _
+      simp only [Function.comp_apply]
+      split
+      · rename_i hx
+        have : x.name = c.name := by simpa using hx
+        show (colOf c).1.name = x.name
+        rw [this]; rfl
+      · rfl
+    have hup := h.update (tm' := tm2) (tb' := tb') hm hd hi2.1 (hi2.2.trans hi1.2) ha2
+      (by rw [Table.addColumn_action tm1 tm2 _ true hs2, Table.addColumn_action tm tm1 _ true hs1]; exact (h.fresh tm hmemT).2)
+      (by rw [hp2, hp1]; exact hp) hn (by rw [hn2, hn1, hcols, hcolsame]) (hnm.trans htn.symm) (by
+        intro x hx
+        rcases hmem2 x hx with ⟨hx1, hxne⟩ | ⟨hxn, hxt⟩
+        · rcases hmem1 x hx1 with ⟨hx0, _⟩ | ⟨hxn', _⟩
+          · obtain ⟨cs, hcs, hcsn, hcst⟩ := hty x hx0
+            refine ⟨cs, ?_, hcsn, hcst⟩
+            rw [hcolsM]
+            refine List.mem_map.mpr ⟨cs, hcs, ?_⟩
+            have : (cs.name == c.name) = false := by
+              rw [hcsn]; simpa [ColDef.toColumn] using hxne
+            simp [this]
+          · exact absurd hxn' (by simpa [ColDef.toColumn] using hxne)
+        · obtain ⟨x0, hx0c, hx0n⟩ : ∃ x0 ∈ tb.cols, x0.name = c.name := by
+            obtain ⟨y, hy, hyn⟩ := List.mem_map.mp ((hasCol_iff tb c.name).mp hc)
+            exact ⟨y, hy, hyn⟩
+          refine ⟨(colOf c).1, ?_, (by show (colOf c).1.name = x.name; rw [hxn]; rfl),
+            (by rw [hxt]; rfl)⟩
+          rw [hcolsM]
+          refine List.mem_map.mpr ⟨x0, hx0c, ?_⟩
+          simp [hx0n])
+    refine hup.of_tables ?_ ?_
+    · show ((m1.using_ t).tables.set id tm2) = m.tables.set id tm2
+      rw [using_tables]
+      show (m.tables.set id tm1).set id tm2 = _
+      rw [List.set_set]
+    · show (m1.using_ t).tblIdx = m.tblIdx
+      unfold Migration.using_; split <;> rfl
 
 /-- the reference engine's `insertAfter` on the column names -/
 theorem insertAfter_names (p : String) (c : ColSpec) (l l' : List ColSpec) (h : insertAfter p c l = some l') :
@@ -153,22 +222,67 @@ theorem insertAfter_names (p : String) (c : ColSpec) (l l' : List ColSpec) (h : 
         obtain ⟨i, hi, hn⟩ := ih r' hr
         exact ⟨i + 1, by simpa using hi, by simp [hn]⟩
 
+theorem insertAfter_mem (p : String) (c : ColSpec) (l l' : List ColSpec) (h : insertAfter p c l = some l') :
+    c ∈ l' ∧ ∀ y ∈ l, y ∈ l' := by
+  induction l generalizing l' with
+  | nil => simp [insertAfter] at h
+  | cons x r ih =>
+    unfold insertAfter at h
+    by_cases hx : (x.name == p) = true
+    · rw [if_pos hx] at h
+      have := Option.some.inj h; subst this
+      exact ⟨by simp, fun y hy => by
+        rcases List.mem_cons.mp hy with e | e
+        · simp [e]
+        · simp [e]⟩
+    · rw [if_neg hx] at h
+      cases hr : insertAfter p c r with
+      | none => rw [hr] at h; cases h
+      | some r' =>
+        rw [hr] at h
+        have := Option.some.inj h; subst this
+        obtain ⟨h1, h2⟩ := ih r' hr
+        exact ⟨List.mem_cons_of_mem _ h1, fun y hy => by
+          rcases List.mem_cons.mp hy with e | e
+          · simp [e]
+          · exact List.mem_cons_of_mem _ (h2 y e)⟩
+
+/-- the types stay right when a column is added on both sides -/
+theorem typesOK_add {tm tm' : Table} {tb tb' : TableSpec} (c : ColDef) (hty : TypesOK tm tb)
+    (hold : ∀ y ∈ tb.cols, y ∈ tb'.cols) (hnew : (colOf c).1 ∈ tb'.cols)
+    (hmem : ∀ x ∈ tm'.cols, x ∈ tm.cols ∨ x = c.toColumn) : TypesOK tm' tb' := by
+  intro x hx
+  rcases hmem x hx with h1 | h1
+  · obtain ⟨cs, hcs, hn, ht⟩ := hty x h1
+    exact ⟨cs, hold cs hcs, hn, ht⟩
+  · rw [h1]; exact ⟨(colOf c).1, hnew, rfl, rfl⟩
+
 /-- ADD COLUMN without position -/
 theorem step_addColumn_none (h : Rel m db) (t : String) (ht : t ≠ "") (c : ColDef) {tb tb' : TableSpec}
     (hf : db.find t = some tb) (hc : tb.hasCol c.name = false) (hn : tb'.name = tb.name)
-    (hcols : tb'.colNames = tb.colNames ++ [c.name]) :
+    (hcolsS : tb'.cols = tb.cols ++ [(colOf c).1]) :
     ∃ m', step m (.addColumn t c .none) = .ok m' ∧ Rel m' (db.replace tb') := by
+  have hcols : tb'.colNames = tb.colNames ++ [c.name] := by
+    show tb'.cols.map (·.name) = _
+    rw [hcolsS, List.map_append, List.map_singleton]; rfl
   have hres : (m.using_ t).resolve "" = t := by rw [resolve_using]; exact Rel.resolve_ne m ht
   have hu := h.using_ t
   obtain ⟨m1, h1, hr, _⟩ := hu.edited hf hn "Migration.AddColumn" (·.addColumn c.toColumn true) (by
-    intro tm hi ha hp hnames
+    intro tm hi ha hp hnames hty
     have hnot : c.toColumn.name ∉ tm.colNames := by
       rw [hnames]; intro hm
       rw [(hasCol_iff tb c.name).mpr (by simpa [ColDef.toColumn] using hm)] at hc; cases hc
     have hg := (hi.cols.get?_none_iff _).mpr hnot
     have hs := Table.addColumn_append tm c.toColumn true hg hp
-    refine ⟨_, hs, Table.appended_inv tm _ hi hg, rfl, Table.appended_allAdd tm _ ha rfl, rfl, hp, ?_⟩
-    rw [Table.appended_names, hnames, hcols]; rfl)
+    refine ⟨_, hs, Table.appended_inv tm _ hi hg, rfl, Table.appended_allAdd tm _ ha rfl, rfl, hp, ?_, ?_⟩
+    · rw [Table.appended_names, hnames, hcols]; rfl
+    · refine typesOK_add c hty (by rw [hcolsS]; intro y hy; exact List.mem_append_left _ hy)
+        (by rw [hcolsS]; simp) ?_
+      intro x hx
+      have hx : x ∈ tm.cols ++ [c.toColumn] := hx
+      rcases List.mem_append.mp hx with h' | h'
+      · exact Or.inl h'
+      · exact Or.inr (List.mem_singleton.mp h'))
   refine ⟨m1, ?_, hr⟩
   unfold step
   simp only [AddPos.toPos?, pure, Except.pure, bind, Except.bind]
@@ -176,22 +290,21 @@ theorem step_addColumn_none (h : Rel m db) (t : String) (ht : t ≠ "") (c : Col
   rw [hres]
   exact h1
 
-
 /-- positional ADD COLUMN: `SetColumnPosition` on the named table, then `AddColumn` through the cursor -/
 theorem addColumn_positioned (h : Rel m db) (t : String) (ht : t ≠ "") (col : Column)
     (p : Pos) {tb tb' : TableSpec} (hf : db.find t = some tb) (hc : col.name ∉ tb.colNames) (hn : tb'.name = tb.name)
     (hT : ∀ tmP : Table, tmP.Inv → tmP.AllAdd → tmP.pendingPos = some p → tmP.colNames = tb.colNames →
-      tmP.colIdx.get? col.name = none →
-      ∃ tm', tmP.addColumn col true = .ok tm' ∧ tm'.colNames = tb'.colNames ∧ tm'.AllAdd) :
+      tmP.colIdx.get? col.name = none → TypesOK tmP tb →
+      ∃ tm', tmP.addColumn col true = .ok tm' ∧ tm'.colNames = tb'.colNames ∧ tm'.AllAdd ∧ TypesOK tm' tb') :
     ∃ m', (do let m1 ← m.setColumnPosition t p; (m1.using_ t).addColumn "" col) = .ok m' ∧
       Rel m' (db.replace tb') := by
-  obtain ⟨id, tm, hg, hm, hd, hnm, hcols, htn⟩ := h.lookup hf
+  obtain ⟨id, tm, hg, hm, hd, hnm, hcols, htn, hty⟩ := h.lookup hf
   have hmem := List.mem_of_getElem? hm
   have hi := h.inv.each tm hmem
   let tmP : Table := { tm with pendingPos := some p }
   have hiP : tmP.Inv := ⟨hi.cols, hi.idxs, hi.fks⟩
   have hgc : tmP.colIdx.get? col.name = none := (hi.cols.get?_none_iff col.name).mpr (by rw [hcols]; exact hc)
-  obtain ⟨tm', hs, hnames', ha'⟩ := hT tmP hiP (h.fresh tm hmem).1 rfl hcols hgc
+  obtain ⟨tm', hs, hnames', ha', hty'⟩ := hT tmP hiP (h.fresh tm hmem).1 rfl hcols hgc hty
   -- `SetColumnPosition`
   let m1 : Migration := { m with tables := m.tables.set id tmP }
   have h1 : m.setColumnPosition t p = .ok m1 := by
@@ -219,7 +332,7 @@ theorem addColumn_positioned (h : Rel m db) (t : String) (ht : t ≠ "") (col : 
       (by rw [Table.addColumn_action tmP tm' col true hs]; exact (h.fresh tm hmem).2)
       (Table.addColumn_pending tmP tm' col true hs (Or.inr (by
         intro ⟨i, c0, hgi, _, _⟩; rw [hgc] at hgi; cases hgi)))
-      hn hnames' (hnm.trans htn.symm)
+      hn hnames' (hnm.trans htn.symm) hty'
     refine hup.of_tables ?_ ?_
     · show ((m1.using_ t).tables.set id tm') = m.tables.set id tm'
       rw [using_tables]
@@ -231,34 +344,39 @@ theorem addColumn_positioned (h : Rel m db) (t : String) (ht : t ≠ "") (col : 
 /-- ADD COLUMN … FIRST -/
 theorem step_addColumn_first (h : Rel m db) (t : String) (ht : t ≠ "") (c : ColDef) {tb tb' : TableSpec}
     (hf : db.find t = some tb) (hc : tb.hasCol c.name = false) (hn : tb'.name = tb.name)
-    (hcols : tb'.colNames = c.name :: tb.colNames) :
+    (hcolsS : tb'.cols = (colOf c).1 :: tb.cols) :
     ∃ m', step m (.addColumn t c .first) = .ok m' ∧ Rel m' (db.replace tb') := by
+  have hcols : tb'.colNames = c.name :: tb.colNames := by
+    show tb'.cols.map (·.name) = _
+    rw [hcolsS, List.map_cons]; rfl
   have hnot : c.toColumn.name ∉ tb.colNames := by
     intro hm; rw [(hasCol_iff tb c.name).mpr (by simpa [ColDef.toColumn] using hm)] at hc; cases hc
   obtain ⟨m', h1, hr⟩ := addColumn_positioned h t ht c.toColumn .first hf hnot hn (by
-    intro tmP hi ha hp hnames hg
-    obtain ⟨tm', hs, hnm, ha'⟩ := Table.addColumn_first tmP c.toColumn true hg hp ha rfl
-    exact ⟨tm', hs, by rw [hnm, hnames, hcols]; rfl, ha'⟩)
+    intro tmP hi ha hp hnames hg hty
+    obtain ⟨tm', hs, hnm, ha', hmem'⟩ := Table.addColumn_first tmP c.toColumn true hg hp ha rfl
+    exact ⟨tm', hs, by rw [hnm, hnames, hcols]; rfl, ha',
+      typesOK_add c hty (by rw [hcolsS]; intro y hy; exact List.mem_cons_of_mem _ hy) (by rw [hcolsS]; simp) hmem'⟩)
   refine ⟨m', ?_, hr⟩
   unfold step
   simpa only [AddPos.toPos?] using h1
 
 /-- ADD COLUMN … AFTER p -/
 theorem step_addColumn_after (h : Rel m db) (t : String) (ht : t ≠ "") (c : ColDef) (p : String) {tb tb' : TableSpec}
-    (hf : db.find t = some tb) (hc : tb.hasCol c.name = false) (hn : tb'.name = tb.name) (i : Nat)
-    (hp : tb.colNames[i]? = some p)
-    (hcols : tb'.colNames = tb.colNames.take (i + 1) ++ c.name :: tb.colNames.drop (i + 1)) :
+    (hf : db.find t = some tb) (hc : tb.hasCol c.name = false) (hn : tb'.name = tb.name)
+    (hia : insertAfter p (colOf c).1 tb.cols = some tb'.cols) :
     ∃ m', step m (.addColumn t c (.after p)) = .ok m' ∧ Rel m' (db.replace tb') := by
+  obtain ⟨i, hp, hnmS⟩ := insertAfter_names p (colOf c).1 tb.cols tb'.cols hia
+  obtain ⟨hnewS, holdS⟩ := insertAfter_mem p (colOf c).1 tb.cols tb'.cols hia
+  have hcols : tb'.colNames = tb.colNames.take (i + 1) ++ c.name :: tb.colNames.drop (i + 1) := hnmS
   have hnot : c.toColumn.name ∉ tb.colNames := by
     intro hm; rw [(hasCol_iff tb c.name).mpr (by simpa [ColDef.toColumn] using hm)] at hc; cases hc
   obtain ⟨m', h1, hr⟩ := addColumn_positioned h t ht c.toColumn (.after p) hf hnot hn (by
-    intro tmP hi ha hpp hnames hg
-    obtain ⟨tm', hs, hnm, ha'⟩ := Table.addColumn_after tmP c.toColumn true hi hg p hpp i (by rw [hnames]; exact hp) ha rfl
-    exact ⟨tm', hs, by rw [hnm, hnames, hcols]; rfl, ha'⟩)
+    intro tmP hi ha hpp hnames hg hty
+    obtain ⟨tm', hs, hnm, ha', hmem'⟩ := Table.addColumn_after tmP c.toColumn true hi hg p hpp i (by rw [hnames]; exact hp) ha rfl
+    exact ⟨tm', hs, by rw [hnm, hnames, hcols]; rfl, ha', typesOK_add c hty holdS hnewS hmem'⟩)
   refine ⟨m', ?_, hr⟩
   unfold step
   simpa only [AddPos.toPos?] using h1
-
 
 theorem filter_name_eq_eraseIdx (db : DB) (hnd : (db.map (·.name)).Nodup) (i : Nat) (tb : TableSpec) (h : db[i]? = some tb) :
     db.filter (·.name != tb.name) = db.eraseIdx i := by
@@ -291,7 +409,7 @@ theorem step_dropTable (h : Rel m db) (t : String) (hh : db.has t = true) :
   obtain ⟨i, hi⟩ := List.mem_iff_getElem?.mp htb
   have hfind := find_of_getElem db h.nodup i tb hi
   rw [hname] at hfind
-  obtain ⟨id, tm, hg, hm, hd, hnm, _, _⟩ := h.lookup hfind
+  obtain ⟨id, tm, hg, hm, hd, hnm, _, _, _⟩ := h.lookup hfind
   have hact : tm.action = .add := (h.fresh tm (List.mem_of_getElem? hm)).2
   have hlt : id < m.tables.length := (List.getElem?_eq_some_iff.mp hm).1
   let m2 : Migration :=
@@ -307,19 +425,23 @@ theorem step_dropTable (h : Rel m db) (t : String) (hh : db.has t = true) :
     rfl
   refine ⟨m2.using_ t, by unfold step; simp only [hs, bind, Except.bind, pure, Except.pure], ?_⟩
   refine Rel.using_ ?_ t
-  refine ⟨Migration.removeTable_inv m _ t h.inv hs, Migration.removeTable_pending m _ t h.np hs, ?_, ?_⟩
+  refine ⟨Migration.removeTable_inv m _ t h.inv hs, Migration.removeTable_pending m _ t h.np hs, ?_, ?_, ?_⟩
   · intro x hx
     exact h.fresh x ((List.eraseIdx_sublist _ _).subset hx)
-  · have hd' : db[id]? = some tb := by
-      -- the table found is the one at `id`
-      have := hd; exact this
-    rw [← hname, filter_name_eq_eraseIdx db h.nodup id tb hd']
+  · rw [← hname, filter_name_eq_eraseIdx db h.nodup id tb hd]
     unfold colView specView
     show (m.tables.eraseIdx id).map _ = (db.eraseIdx id).map _
     rw [← Table.map_eraseIdx', ← Table.map_eraseIdx']
     have := h.view
     unfold colView specView at this
     rw [this]
+  · rw [← hname, filter_name_eq_eraseIdx db h.nodup id tb hd]
+    intro i x y hx hy
+    have hx : (m.tables.eraseIdx id)[i]? = some x := hx
+    rw [List.getElem?_eraseIdx] at hx hy
+    by_cases hii : i < id
+    · rw [if_pos hii] at hx hy; exact h.types i x y hx hy
+    · rw [if_neg hii] at hx hy; exact h.types (i + 1) x y hx hy
 
 
 theorem find_replace (db : DB) (hnd : (db.map (·.name)).Nodup) (i : Nat) (tb tb' : TableSpec) (h : db[i]? = some tb)
@@ -347,7 +469,7 @@ theorem addCols_rel (t : String) (cols : List ColDef) : ∀ (m : Migration) (dbk
   | nil =>
     intro m dbk tbS h _ hf _ _
     refine ⟨m, rfl, ?_⟩
-    obtain ⟨id, _, _, _, hd, _, _, _⟩ := h.lookup hf
+    obtain ⟨id, _, _, _, hd, _, _, _, _⟩ := h.lookup hf
     have : ({ tbS with cols := tbS.cols ++ ([] : List ColDef).map (fun c => (colOf c).1) } : TableSpec) = tbS := by simp
     rw [this, replace_self dbk h.nodup id tbS hd]
     exact h
@@ -361,16 +483,23 @@ theorem addCols_rel (t : String) (cols : List ColDef) : ∀ (m : Migration) (dbk
       have := List.nodup_append.mp hnd
       exact this.2.2 c.name hm c.name (by simp) rfl
     obtain ⟨m1, h1, hr1, hc1⟩ := h.edited hf (tb' := tbS1) rfl "Migration.AddColumn" (·.addColumn c.toColumn true) (by
-      intro tm hi ha hp hnames
+      intro tm hi ha hp hnames hty
       have hnot : c.toColumn.name ∉ tm.colNames := by rw [hnames]; exact hfresh
       have hg := (hi.cols.get?_none_iff _).mpr hnot
       have hs := Table.addColumn_append tm c.toColumn true hg hp
-      refine ⟨_, hs, Table.appended_inv tm _ hi hg, rfl, Table.appended_allAdd tm _ ha rfl, rfl, hp, ?_⟩
-      rw [Table.appended_names, hnames]
-      show _ = (tbS.cols ++ [(colOf c).1]).map (·.name)
-      rw [List.map_append, List.map_singleton, hcn]
-      rfl)
-    obtain ⟨id, _, _, _, hd, _, _, _⟩ := h.lookup hf
+      refine ⟨_, hs, Table.appended_inv tm _ hi hg, rfl, Table.appended_allAdd tm _ ha rfl, rfl, hp, ?_, ?_⟩
+      · rw [Table.appended_names, hnames]
+        show _ = (tbS.cols ++ [(colOf c).1]).map (·.name)
+        rw [List.map_append, List.map_singleton, hcn]
+        rfl
+      · refine typesOK_add (tb' := tbS1) c hty (fun y hy => List.mem_append_left _ hy)
+          (by show (colOf c).1 ∈ tbS.cols ++ [(colOf c).1]; simp) ?_
+        intro x hx
+        have hx : x ∈ tm.cols ++ [c.toColumn] := hx
+        rcases List.mem_append.mp hx with h' | h'
+        · exact Or.inl h'
+        · exact Or.inr (List.mem_singleton.mp h'))
+    obtain ⟨id, _, _, _, hd, _, _, _, _⟩ := h.lookup hf
     obtain ⟨hf1, _, _⟩ := find_replace dbk h.nodup id tbS tbS1 hd rfl
     rw [hname] at hf1
     have hnd1 : (tbS1.colNames ++ rest.map (·.name)).Nodup := by
@@ -440,7 +569,11 @@ theorem step_createTable (h : Rel m db) (t : String) (ht : t ≠ "") (ident : Na
       rw [Table.names_of_sig hfr.sig]; rfl
   obtain ⟨tb0, h0, hi0, ha0, hact0, hp0, hn0, hc0⟩ := htb
   let tbS0 : TableSpec := { name := t, cols := [], pk := pk' }
-  obtain ⟨m2, h2, hr2, hcur2⟩ := (h.using_ t).append_table tb0 tbS0 hi0 ha0 hact0 hp0 hn0 hc0 hnew
+  have hty0 : TypesOK tb0 tbS0 := by
+    intro x hx
+    have : x.name ∈ tb0.colNames := List.mem_map_of_mem hx
+    rw [hc0] at this; cases this
+  obtain ⟨m2, h2, hr2, hcur2⟩ := (h.using_ t).append_table tb0 tbS0 hi0 ha0 hact0 hp0 hn0 hc0 hnew hty0
   have hr2u := hr2.using_ t
   have hcur : (m2.using_ t).cursor = t := using_cursor m2 ht
   -- the new table is the last one
